@@ -180,6 +180,14 @@ def pool(workers=None):
     return _POOL
 
 
+def shutdown():
+    """stop the solver pool (before another process pool forks from this process)"""
+    global _POOL
+    if _POOL is not None:
+        _POOL.shutdown(wait=True)
+        _POOL = None
+
+
 def solve_all(jobs):
     """jobs: list of (name, smt2, budget, want_models, second) -> list of result dicts (same order)"""
     if not jobs:
